@@ -982,3 +982,39 @@ package query
 //@ func readRecordSet$1
 //@   property C19
 //@   safety
+
+// ---------------------------------------------------------------------------------------------
+// C04 / C12: GROUP BY assembles each bucket from the per-worker member lists in worker order: the bucket of a key
+// holds, column by column, exactly the rows every worker found for that key (worker 0's first, in row order).
+//@ spec func gsum(gl []map[string][]int, key string, j int) int reads elems(gl) map(map[string][]int)
+//@ axiom gsum_zero: forallv(gl, []map[string][]int, forallv(key, string, gsum(gl, key, 0) == 0))
+//@ axiom gsum_step: forallv(gl, []map[string][]int, forallv(key, string, forall(j, 0, MaxInt64, gsum(gl, key, j + 1) == gsum(gl, key, j) + ite(has(gl[j], key), len(gl[j][key]), 0))))
+//@ axiom gsum_nonneg: forallv(gl, []map[string][]int, forallv(key, string, forall(j, 0, MaxInt64, gsum(gl, key, j) >= 0)))
+//@ axiom gsum_monotone: forallv(gl, []map[string][]int, forallv(key, string, forall(a, 0, MaxInt64, forall(b, 0, MaxInt64, a <= b ==> gsum(gl, key, a) <= gsum(gl, key, b)))))
+//@ spec def memberOk(view *View, idx int) bool = 0 <= idx && idx < len(view.RecordSet) && len(view.RecordSet[idx]) >= len(view.Header) &&
+//@     forall(c, 0, len(view.Header), len(view.RecordSet[idx][c]) >= 1)
+
+//@ func (*View).group$2
+//@   property C04 C12
+//@   safety
+//@   requires view != nil && 0 <= gIdx && gIdx < len(groupKeys) && gIdx < len(records) && groupKeyCnt != nil
+//@   requires groupKeyCnt[groupKeys[gIdx]] == gsum(groupsList, groupKeys[gIdx], len(groupsList)) && groupKeyCnt[groupKeys[gIdx]] >= 0
+//@   requires forall(j, 0, len(groupsList), has(groupsList[j], groupKeys[gIdx]) ==> forall(k, 0, len(groupsList[j][groupKeys[gIdx]]), memberOk(view, groupsList[j][groupKeys[gIdx]][k])))
+//@   ensures [bucket-shape] result == nil && len(records[gIdx]) == len(view.Header) && forall(c, 0, len(view.Header), len(records[gIdx][c]) == gsum(groupsList, groupKeys[gIdx], len(groupsList)))
+//@   ensures [bucket-holds-every-member-in-worker-order] forall(c, 0, len(view.Header), forall(j, 0, len(groupsList), has(groupsList[j], groupKeys[gIdx]) ==>
+//@       forall(k, 0, len(groupsList[j][groupKeys[gIdx]]), records[gIdx][c][gsum(groupsList, groupKeys[gIdx], j) + k] == view.RecordSet[groupsList[j][groupKeys[gIdx]][k]][c][0])))
+//@   loop 1 invariant 0 <= i && i <= len(view.Header) && len(record) == len(view.Header) && fresh(record)
+//@   loop 1 invariant forall(c, 0, i, len(record[c]) == gsum(groupsList, groupKeys[gIdx], len(groupsList)) && fresh(record[c]) && forall(j, 0, len(groupsList), has(groupsList[j], groupKeys[gIdx]) ==>
+//@       forall(k, 0, len(groupsList[j][groupKeys[gIdx]]), record[c][gsum(groupsList, groupKeys[gIdx], j) + k] == view.RecordSet[groupsList[j][groupKeys[gIdx]][k]][c][0])))
+//@   loop 1 modifies fresh
+//@   loop 2 invariant 0 <= $i && $i <= len(groupsList) && 0 <= i && i < len(view.Header) && pos == gsum(groupsList, groupKeys[gIdx], $i) && len(primaries) == gsum(groupsList, groupKeys[gIdx], len(groupsList)) && fresh(primaries)
+//@   loop 2 invariant forall(j, 0, $i, has(groupsList[j], groupKeys[gIdx]) ==>
+//@       forall(k, 0, len(groupsList[j][groupKeys[gIdx]]), primaries[gsum(groupsList, groupKeys[gIdx], j) + k] == view.RecordSet[groupsList[j][groupKeys[gIdx]][k]][i][0]))
+//@   loop 2 modifies primaries[*]
+//@   loop 3 invariant 0 <= $i && $i <= len(indices) && 0 <= rangeindex@1 && rangeindex@1 < len(groupsList) && has(groupsList[rangeindex@1], groupKeys[gIdx]) && indices == groupsList[rangeindex@1][groupKeys[gIdx]]
+//@   loop 3 invariant 0 <= i && i < len(view.Header) && pos == gsum(groupsList, groupKeys[gIdx], rangeindex@1) && len(primaries) == gsum(groupsList, groupKeys[gIdx], len(groupsList)) && fresh(primaries)
+//@   loop 3 invariant forall(j, 0, rangeindex@1, has(groupsList[j], groupKeys[gIdx]) ==>
+//@       forall(k, 0, len(groupsList[j][groupKeys[gIdx]]), primaries[gsum(groupsList, groupKeys[gIdx], j) + k] == view.RecordSet[groupsList[j][groupKeys[gIdx]][k]][i][0]))
+//@   loop 3 invariant forall(k, 0, $i, primaries[pos + k] == view.RecordSet[indices[k]][i][0])
+//@   loop 3 modifies primaries[*]
+//@   modifies records[*]
